@@ -20,7 +20,8 @@ import (
 //	         (Model.C15 runK): closed at loopRound + readHeaderTimeout() in (a) - the client-side lower bound of
 //	         loopRound is the instant the origin began to write the previous response -, at firstByte +
 //	         readHeaderTimeout() in (b) and (c); a partial body is under loopRound + ReadTimeout (never cut when
-//	         ReadTimeout is unset: the rest of the body is then sent and the request must be answered).
+//	         ReadTimeout is unset: the rest of the body is then sent and the request must be answered; with
+//	         ReadTimeout set: bodystall.go, known finding F49).
 //	dribble  the unit of a phase whose limit bounds a whole operation of many reads - PROXY header (v1, v2),
 //	         listener ClientHello, request head (also on a kept-alive connection), ClientHello inside an
 //	         intercepted tunnel - arrives piece by piece, every pause shorter than the limit, for longer than
@@ -234,6 +235,10 @@ func (e *env) pipeOnce(ctx *core.Ctx, r *rec, pc *pipeCase, attempt int) {
 	point, limit := "head", e.conf.headerEff()
 	if pc.Unit == "body" {
 		point, limit = "body", e.conf.L.Read
+		if limit > 0 {
+			e.judgeBodyStall(ctx, r, pc, s, anchor, 504)
+			return
+		}
 	}
 	var until time.Time
 	if limit > 0 {
@@ -452,12 +457,8 @@ dribbling:
 // ---- generators ----
 
 func genPipe(r *core.Rand, conf Conf, id string, mode, unit string) *pipeCase {
-	// A stall inside a body is generated only with ReadTimeout unset (no limit applies: the request must
-	// survive), as the body cases of run.go. With ReadTimeout set the code does not close the connection at
-	// t0 + ReadTimeout: the failed body read is answered with a 504 and the connection idles on.
-	if unit == "body" && conf.L.Read > 0 {
-		unit = "head"
-	}
+	// A stall inside a body: with ReadTimeout unset no limit applies (the request must survive), with it set
+	// the failed body read is answered with a 504 and the connection idles on (F49: judgeBodyStall).
 	pc := &pipeCase{Kind: "pipe", Conf: conf, ID: id, Mode: mode, Unit: unit, Served: r.Range(1, 3)}
 	switch mode {
 	case "segment":
